@@ -8,6 +8,21 @@ CLAIMED = {
  "C02": ("must-pass-through (CFG edge-cut reachability), value provenance and loop-iteration analysis on SSA of the security interpreter (RouteAuthenticator(s).Authenticate, Context.Authorize, newSecureAPI, buildAuthenticators)",
          "Static: decides for all requirement structures and all per-scheme outcome vectors that admission, refusal and principal/scopes provenance have the required control-flow shape; does not decide user-supplied authenticators.",
          "Trusts go/types+go/ssa of x/tools v0.29.0; go-openapi/analysis returns the spec's requirement alternatives.", "DESIGN.md §2 C02"),
+ "C06": ("must-pass-through, key/argument provenance and error-recording analysis on SSA of both content-type gates, validateContentType, runtime.ContentType, HasBody and AddRoute",
+         "Static: decides that a consumer is selected and run only under HasBody, by the parsed media type, after admission, with every gate error recorded, and that the API default is always admitted; does not decide the header grammar (mime).",
+         "Trusts go/types+go/ssa; mime.ParseMediaType and swag.ContainsStringsCI as documented.", "DESIGN.md §2 C06"),
+ "C07": ("value provenance (result is an offer), edge-guard analysis (q=0 never selects), bounded-accumulator and loop-exit rules on SSA of the Accept parser, must-pass-through for the 406 gate",
+         "Static: decides the structural necessary conditions of negotiation (only offers are returned, q=0 never selects, q accumulators cannot overflow, digit loop consumes all digits, 406 recorded and stops binding). The lexicographic maximum itself is not decided.",
+         "Trusts go/types+go/ssa.", "DESIGN.md §2 C07"),
+ "C08": ("table-key provenance (normalised media types), dominance (header before body), must-pass-through (HEAD/204, JSON fallback, realm marker) on SSA of Context.Respond, errorResp and the basic authenticators",
+         "Static: decides producer selection by normalised format, status provenance, no body for HEAD/204, error-responder wiring and the WWW-Authenticate realm marker for every path; does not decide producer output.",
+         "Trusts go/types+go/ssa.", "DESIGN.md §2 C08"),
+ "C17": ("typestate (open/closed) and delegation-target analysis on SSA of HasBody and peekingReader, nil-receiver contradiction rule",
+         "Static: decides single-buffer delegation, non-consuming probe, fast-path conditions, close-once state machine and nil-receiver safety on all paths; byte sequences under chunking are bufio's and not decided.",
+         "Trusts go/types+go/ssa; bufio.Reader as documented.", "DESIGN.md §2 C17"),
+ "C20": ("must-pass-through on string-equality interception, request-immutability (no store through the request), wiring provenance of the UI/spec constructors, html/template receiver types, constant-template field check",
+         "Static: decides that Spec/serveUI intercept only on equality of the cleaned path, forward (rw, r) untouched otherwise, escape options via html/template, and that the API handlers derive the spec route from SpecURL for every parsable URL.",
+         "Trusts go/types+go/ssa; path.Clean/url.Parse/html/template as documented.", "DESIGN.md §2 C20"),
  "C18": ("field-provenance and must-pass-through analysis on SSA/CFG of TLSClientAuth (all option combinations at once)",
          "Static: for every path of the loop-free TLSClientAuth, decides which value each security-relevant tls.Config field receives and that errors are returned; covers the whole option lattice symbolically. Does not decide crypto/tls handshake behaviour.",
          "Trusts go/types+go/ssa of x/tools v0.29.0 and the documented meaning of tls.Config fields.", "DESIGN.md §2 C18"),
